@@ -75,6 +75,11 @@ CHECKS = {
     category="model_checking", design_ref="4 C06",
     text="TLC checks, on a statement-level transcription of MST, AIM, MWEM+PGM and AdaGrid, that no branch condition, noise scale, candidate set or output is tainted by the private data except through a release or selection (bounded MWEM's record count is the one named exception). Each mechanism is then run on seeded datasets (incl. empty, one-cell, constant-attribute, noise-dominated) and re-run on all (quick: 5 sampled) neighbours made to observe the recorded released values, selected indices and post-processing draws; NITrace.tla requires identical primitive sequences (kind, distribution, bitwise scale, operand shape, candidate count), identical post-processing randomness and identical returned data, conforming to the input's original domain. A replay that cannot consume the recorded observations is a violation.",
     note="Timing/memory side channels out of scope; shims as in C05."),
+ "C20": dict(
+    technique="TLA+ spec of the selection law on power-of-two quality lattices (spec/dp/Selection.tla: exact rationals; ShiftInvariant, Normalised, Symmetric, Monotone, Doubling) model-checked by TLC; every enumerated vector replayed into every selection primitive with the sampler's p= argument captured",
+    category="model_checking", design_ref="4 C20",
+    text="TLC enumerates every quality vector of length 1-3 (thorough 4) over an exponent lattice x base measures x shifts and checks the algebraic laws of P(i) = b_i 2^k_i / sum; each vector is passed as qualities k ln2 s/(coef eps) (+ shifts up to 5e5) to Mechanism.exponential_mechanism (array, dict, dict with base_measure in another key order), mst/adaptive_grid exponential_mechanism (standard and monotonic), mwem worst_approximated (bounded x penalty) and AIM.worst_approximated, and the p= vector handed to the sampler must equal the rational law (1e-12 plus the rounding of the inputs) and the returned key must be the sampled one; extreme magnitudes (1e6 gaps, all-negative penalised scores), eps=inf and the noise-scale helpers / sampler arguments are checked directly.",
+    note="autodp calibrator replaced by a stand-in (only linearity and the bounded doubling of gaussian_noise_scale are checked); permute_and_flip and generalized_exponential_mechanism not covered; numpy's generators trusted."),
 }
 
 NOT_YET = "check not built yet (work in progress, see DESIGN.md section 8 build order)"
